@@ -294,6 +294,17 @@ class Property(DataElement):
         else:
             self._value = datatypes.trivial_cast(value, self.value_type)
 
+    @property
+    def value_type(self) -> base.DataTypeDefXsd:
+        return self._value_type
+
+    @value_type.setter
+    def value_type(self, value_type: base.DataTypeDefXsd) -> None:
+        # keep value and value_type consistent: an existing value is re-cast (or the assignment is refused)
+        if getattr(self, "_value", None) is not None:
+            self._value = datatypes.trivial_cast(self._value, value_type)
+        self._value_type: base.DataTypeDefXsd = value_type
+
 
 class MultiLanguageProperty(DataElement):
     """
@@ -430,6 +441,23 @@ class Range(DataElement):
             self._max = None
         else:
             self._max = datatypes.trivial_cast(value, self.value_type)
+
+    @property
+    def value_type(self) -> base.DataTypeDefXsd:
+        return self._value_type
+
+    @value_type.setter
+    def value_type(self, value_type: base.DataTypeDefXsd) -> None:
+        # keep min/max and value_type consistent: existing values are re-cast (or the assignment is refused)
+        new_min = getattr(self, "_min", None)
+        new_max = getattr(self, "_max", None)
+        if new_min is not None:
+            new_min = datatypes.trivial_cast(new_min, value_type)
+        if new_max is not None:
+            new_max = datatypes.trivial_cast(new_max, value_type)
+        self._min = new_min
+        self._max = new_max
+        self._value_type: base.DataTypeDefXsd = value_type
 
 
 @_string_constraints.constrain_content_type("content_type")
